@@ -45,6 +45,7 @@ struct Scenario {
   int hookTimeout = -1;
   std::string silence;
   double tickSpacing = 1.0;
+  int rulesetDelay = 0;    // ruleset-level post_action_delay
   std::string describe() const {
     std::ostringstream o;
     o << plugin << "(";
@@ -106,7 +107,7 @@ inline std::string basePart(const std::string& p) { return p.substr(p.rfind('/')
 
 inline std::string configJson(const Scenario& s) {
   std::ostringstream o;
-  o << "{\"rulesets\":[{\"name\":\"RK\",\"post_action_delay\":\"0\"";
+  o << "{\"rulesets\":[{\"name\":\"RK\",\"post_action_delay\":\"" << s.rulesetDelay << "\"";
   if (s.hookTimeout >= 0) o << ",\"prekill_hook_timeout\":\"" << s.hookTimeout << "\"";
   if (!s.silence.empty()) o << ",\"silence-logs\":\"" << s.silence << "\"";
   o << ",\"detectors\":[[\"gk\",{\"name\":\"verif_scripted\",\"args\":{\"id\":\"det\"}}]],\"actions\":[{\"name\":\"verif_wrap\","
@@ -241,15 +242,25 @@ inline Outcome run(const Scenario& s, bool verbose = false) {
       if (basePart(e.path) == "cgroup.kill") cur->killFileWritten = true;
       if (basePart(e.path) == "cgroup.freeze") cur->freezeWritten = true;
     } else if (e.kind == "kmsg" && e.arg.find("(dry)") != std::string::npos) {
-      // dry-run "attempt": victim is the 4th blank-separated token of the record "oomd kill: a b c <cgroup> ..."
+      // dry-run "attempt": record is "oomd kill: <p10> <p60> <p300> <cgroup> <usage> ruleset:[..] ..."; the cgroup field is
+      // empty for the root cgroup, so split on single blanks and keep empty fields
       Attempt a;
       a.tick = t;
       a.dry = true;
-      std::istringstream is(e.arg);
-      std::string w;
       std::vector<std::string> ws;
-      while (is >> w) ws.push_back(w);
-      if (ws.size() > 5) a.victim = ws[5];
+      {
+        std::string rest = e.arg.substr(e.arg.find(": ") == std::string::npos ? 0 : e.arg.find(": ") + 2), curw;
+        for (char ch : rest) {
+          if (ch == ' ') {
+            ws.push_back(curw);
+            curw.clear();
+          } else {
+            curw += ch;
+          }
+        }
+        ws.push_back(curw);
+      }
+      if (ws.size() > 3) a.victim = ws[3];
       a.effBegin = a.effEnd = i;
       if (cur) cur->effEnd = i;
       cur = nullptr;
